@@ -169,7 +169,7 @@ def strategy(draw):
 
 def subchecks(tier):
     q = tier == "quick"
-    return [Sub("selection", "hyp", check, strategy=strategy, examples=480 if q else 12000, shrink_budget=60,
+    return [Sub("selection", "hyp", check, strategy=strategy, examples=384 if q else 12000, shrink_budget=60,
                 sample_filter=gen_maps.short_case, required_classes=("candidates-differ", "more-peaks-than-count", "best-multi")),
             Sub("many-queries", "hyp", check_many, strategy=scale.many_queries_case, examples=2 if q else 48, shrink_budget=0, skip_first=True, shards=2 if q else 16,
                 sample_filter=scale.short, describe="257-385 query molecules in one 'best'-mode run")]
